@@ -10,6 +10,7 @@ Per (settings, existence pattern):
 plus, concretely: rows distinct, count (cold counting path) == len(listed), jitted validator == summary on one model per
 path (concolic validation) and == Spec on listed matrices and their +-1 neighbours.
 """
+import zlib
 import itertools
 import numpy as np
 import z3
@@ -186,6 +187,17 @@ def run_instance(inst, tier='quick', seed=0):
             res['status'] = INCONCLUSIVE if res['status'] == HOLDS else res['status']
             res['notes'].append(f'Q1 {r}')
 
+        # second opinion (thorough tier, a sample of the instances): the two closing queries as SMT-LIB2 text through the
+        # z3 4.8.12 and cvc5 1.0.3 binaries; an `(error` line or a differing answer makes the instance inconclusive
+        if tier == 'thorough' and k_pat == 0 and (zlib.crc32(inst['label'].encode()) % 10 == 0):
+            for qname, neg in (('Q1', V != S), ('Q2', S != L)):
+                ans = run_external_solvers(prover.smt2(pre, neg), timeout_s=20)
+                res.setdefault('second_solver', []).append(dict(query=qname, answers=ans))
+                if any(a_ != 'unsat' for a_ in ans.values()):
+                    # only meaningful if the in-process solver says unsat; compared below through the status
+                    res['notes'].append(f'second solver on {qname}: {ans}')
+                    res['second_solver_disagrees'] = True
+
         # Q2: enumeration == specification
         r, model = prover.refute(pre, S != L)
         if r == 'sat':
@@ -293,6 +305,8 @@ def run_instance(inst, tier='quick', seed=0):
         except Exception as e:  # noqa
             violation('iter_matrices_raises', s['patterns'][0], 0, None, f'{type(e).__name__}: {e}', 'matrices')
 
+    if res.get('second_solver_disagrees') and res['status'] == HOLDS:
+        res['status'] = INCONCLUSIVE  # the in-process solver refuted the negated claims, another solver did not confirm
     # API-level counts
     if n_sum_cold != sum(lens) and len(lens) == len(s['patterns']):
         violation('count_all_vs_listed', s['patterns'][0], 0, None, dict(count_all_matrices_sum=n_sum_cold), dict(listed_total=sum(lens)))
